@@ -4,23 +4,67 @@ package bfe_http2
 
 // C33 — HTTP/2 inbound flow control is enforced and replenished.
 // Engine E2: the real server connection runs in a synctest bubble; the harness enumerates every
-// order of environment events (client frames, handler commands) up to a depth and, at every
-// quiescent point, compares the WINDOW_UPDATE / RST / GOAWAY frames seen by the client with a
-// window ledger: (1) DATA inside the advertised windows is never answered with
+// order of environment events (client frames, handler commands, the stream timer) up to a depth
+// and, at every quiescent point, compares the WINDOW_UPDATE / RST / GOAWAY frames seen by the
+// client with a window ledger: (1) DATA inside the advertised windows is never answered with
 // FLOW_CONTROL_ERROR, DATA beyond them always is and never reaches the handler; (2) the server
 // never credits more than it consumed; (3) outstanding debt == octets still buffered for a live
 // handler, at stream and connection level (so nothing leaks and a conforming client never
 // stalls); padding is refunded at once.
+//
+// Every family runs under a stated per-stream window configuration: the DEFAULT window (bfe takes
+// the request-body buffer from a pool and gives it back when the stream closes) and non-default
+// windows (bfe allocates a private buffer). The "close" family is about streams that end while
+// 0<k<=n body octets are still buffered unread (client RST_STREAM, handler return, handler panic,
+// stream read timeout, DATA beyond the declared content-length), in sequential rounds on one
+// connection. Every execution of every family ends with an epilogue: the client cancels whatever
+// is still open, the handlers return, and at that final quiescent point the client's ledger of the
+// connection window must be back at its initial value (nothing outstanding).
 
 import (
 	"fmt"
+	"io"
+	"sort"
 	"strings"
 	"testing"
+	"time"
 
 	"github.com/bfenetworks/bfe/verifkit/vk"
 )
 
-const c33win = 8 // advertised per-stream window (MaxUploadBufferPerStream)
+const (
+	c33win       = 8                // small non-default per-stream window (MaxUploadBufferPerStream)
+	c33connInit  = 65535            // RFC 7540 6.9.2: initial connection window
+	c33panicRead = 7777             // a scripted body Read of this size makes the handler panic
+	c33timeout   = 10 * time.Second // read-stream timeout armed by the handler (close family)
+)
+
+type c33dv struct {
+	name string
+	n    int
+	pad  int
+	es   bool
+}
+
+// c33alpha is one event alphabet.
+type c33alpha struct {
+	maxStreams int
+	sequential bool // a new stream is opened only after all earlier ones are finished (rounds)
+	data       []c33dv
+	reads      []int
+	closeBody  bool
+	declLen    int  // >0: every stream can also be opened with content-length: declLen
+	timer      bool // the handler arms the read-stream timeout at start; event TO fires it
+	panics     bool // event PANIC: the handler panics
+}
+
+// c33fam is one explored family: an alphabet under a per-stream window configuration.
+type c33fam struct {
+	name  string // family name used in case ids
+	alpha c33alpha
+	win   uint32 // Server.MaxUploadBufferPerStream; 0 = bfe default (65535, pooled body buffer)
+	depth int
+}
 
 type c33stream struct {
 	id          uint32
@@ -34,12 +78,18 @@ type c33stream struct {
 	wu          int  // stream-level WINDOW_UPDATE total
 	bodyClosed  bool // handler closed the body
 	returned    bool
+	declared    int    // declared content-length, -1 = none
+	overLen     int    // flow-controlled octets of the DATA frame that went beyond the declared length (0 = none)
+	gone        bool   // seen absent from the server's stream table
+	closeKind   string // the event class during which the stream disappeared
 }
 
 type c33model struct {
+	win      int // per-stream window the server advertised (SETTINGS_INITIAL_WINDOW_SIZE)
 	streams  []*c33stream
 	totalFC  int
 	wu0      int
+	ackLeak  int  // connection-level discrepancy already reported (each loss is reported once)
 	connDead bool // GOAWAY or closed
 	excess   bool // an over-window DATA was sent in the last event
 	excessOn uint32
@@ -50,71 +100,64 @@ type c33event struct {
 	run  func(e *h2env, m *c33model)
 }
 
+// c33body wraps the request body so that a scripted Read of c33panicRead octets panics inside
+// the handler goroutine (the server then resets the stream with INTERNAL_ERROR).
+type c33body struct{ io.ReadCloser }
+
+func (b *c33body) Read(p []byte) (int, error) {
+	if len(p) == c33panicRead {
+		panic("c33: scripted handler panic")
+	}
+	return b.ReadCloser.Read(p)
+}
+
 // c33events lists the enabled events in the current state for a family.
-func c33events(fam string, e *h2env, m *c33model, depthLeft int) []c33event {
+func c33events(a *c33alpha, e *h2env, m *c33model) []c33event {
 	var evs []c33event
 	if m.connDead {
 		return nil
 	}
-	maxStreams := 1
-	if fam == "two" {
-		maxStreams = 2
-	}
 	// open next stream
-	nOpen := 0
+	nOpen, unfinished := 0, 0
 	for _, s := range m.streams {
 		if s.opened {
 			nOpen++
+			if !s.dead {
+				unfinished++
+			}
 		}
 	}
-	if nOpen < maxStreams {
+	if nOpen < a.maxStreams && nOpen < len(m.streams) && !(a.sequential && unfinished > 0) {
 		s := m.streams[nOpen]
 		evs = append(evs, c33event{fmt.Sprintf("H%d", s.id), func(e *h2env, m *c33model) {
 			e.request(s.id, "POST", s.path, false)
 			s.opened = true
 		}})
+		if a.declLen > 0 {
+			evs = append(evs, c33event{fmt.Sprintf("HC%d", s.id), func(e *h2env, m *c33model) {
+				e.request(s.id, "POST", s.path, false, "content-length", fmt.Sprint(a.declLen))
+				s.opened = true
+				s.declared = a.declLen
+			}})
+		}
 	}
-	type dv struct {
-		name string
-		n    int
-		pad  int
-		es   bool
-	}
-	var dvs []dv
-	switch fam {
-	case "one":
-		dvs = []dv{{"D1", 1, 0, false}, {"D5p2", 5, 2, false}, {"D8", 8, 0, false}, {"D9", 9, 0, false}, {"D2E", 2, 0, true}, {"D0p3", 0, 3, false}}
-	case "two":
-		dvs = []dv{{"D3", 3, 0, false}, {"D8", 8, 0, false}, {"D2E", 2, 0, true}}
-	case "conn":
-		dvs = []dv{{"D16k", 16384, 0, false}, {"D16kp", 16000, 255, false}}
-	}
+	timerLive := false
 	for _, s := range m.streams {
 		s := s
 		if !s.opened {
 			continue
 		}
 		if !s.clientEnded && !s.dead {
-			for _, d := range dvs {
+			for _, d := range a.data {
 				d := d
 				evs = append(evs, c33event{fmt.Sprintf("%s@%d", d.name, s.id), func(e *h2env, m *c33model) { c33data(e, m, s, d.n, d.pad, d.es) }})
 			}
-			evs = append(evs, c33event{fmt.Sprintf("RST@%d", s.id), func(e *h2env, m *c33model) {
-				e.fr.WriteRSTStream(s.id, ErrCodeCancel)
-				e.flushFrame()
-				s.dead = true
-			}})
+			evs = append(evs, c33event{fmt.Sprintf("RST@%d", s.id), func(e *h2env, m *c33model) { c33reset(e, s) }})
+			timerLive = true
 		}
 		h := e.handler(s.path)
 		if h != nil && !h.done && !h.busy {
-			reads := []int{4, 64}
-			if fam == "conn" {
-				reads = []int{70000}
-			}
-			if fam == "two" {
-				reads = []int{64}
-			}
-			for _, n := range reads {
+			for _, n := range a.reads {
 				n := n
 				evs = append(evs, c33event{fmt.Sprintf("R%d@%d", n, s.id), func(e *h2env, m *c33model) {
 					res, blocked := h.do(h2cmd{op: "read", n: n})
@@ -123,19 +166,36 @@ func c33events(fam string, e *h2env, m *c33model, depthLeft int) []c33event {
 					}
 				}})
 			}
-			if !s.bodyClosed {
+			if a.closeBody && !s.bodyClosed {
 				evs = append(evs, c33event{fmt.Sprintf("CB@%d", s.id), func(e *h2env, m *c33model) {
 					h.do(h2cmd{op: "closebody"})
 					s.bodyClosed = true
 				}})
 			}
-			evs = append(evs, c33event{fmt.Sprintf("RET@%d", s.id), func(e *h2env, m *c33model) {
-				h.do(h2cmd{op: "return"})
-				s.returned = true
-			}})
+			evs = append(evs, c33event{fmt.Sprintf("RET@%d", s.id), func(e *h2env, m *c33model) { c33return(h, s) }})
+			if a.panics {
+				evs = append(evs, c33event{fmt.Sprintf("PANIC@%d", s.id), func(e *h2env, m *c33model) {
+					h.do(h2cmd{op: "read", n: c33panicRead}) // never answers: the handler goroutine is gone
+				}})
+			}
 		}
 	}
+	if a.timer && timerLive {
+		// the read-stream timer of every stream whose request body is still open fires
+		evs = append(evs, c33event{"TO", func(e *h2env, m *c33model) { e.sleep(c33timeout + time.Second) }})
+	}
 	return evs
+}
+
+func c33reset(e *h2env, s *c33stream) {
+	e.fr.WriteRSTStream(s.id, ErrCodeCancel)
+	e.flushFrame()
+	s.dead = true
+}
+
+func c33return(h *h2handler, s *c33stream) {
+	h.do(h2cmd{op: "return"})
+	s.returned = true
 }
 
 func c33data(e *h2env, m *c33model, s *c33stream, n, pad int, es bool) {
@@ -150,15 +210,13 @@ func c33data(e *h2env, m *c33model, s *c33stream, n, pad int, es bool) {
 	} else {
 		e.fr.WriteData(s.id, es, data)
 	}
-	win := c33win
-	if e.srv.MaxUploadBufferPerStream > 0 {
-		win = int(e.srv.MaxUploadBufferPerStream)
-	}
-	streamAvail := win + s.wu - s.sentFC
-	connAvail := 65535 + m.wu0 - m.totalFC
+	streamAvail := m.win + s.wu - s.sentFC
+	connAvail := c33connInit + m.wu0 - m.totalFC
 	if fc > streamAvail || fc > connAvail {
 		m.excess = true
 		m.excessOn = s.id
+	} else if s.declared >= 0 && s.accepted+n > s.declared {
+		s.overLen = fc
 	}
 	s.sentFC += fc
 	m.totalFC += fc
@@ -168,11 +226,10 @@ func c33data(e *h2env, m *c33model, s *c33stream, n, pad int, es bool) {
 	if es {
 		s.clientEnded = true
 	}
-	_ = pad
 }
 
 // c33observe folds the frames the server produced after an event into the model and checks the
-// per-event clauses. last = data octets of the DATA frame just sent (0 if the event was not DATA).
+// per-event clauses.
 func c33observe(r *vk.Run, id string, ev string, e *h2env, m *c33model, accBefore map[uint32]int) {
 	frames := e.recv()
 	gotFC := false
@@ -226,14 +283,35 @@ func c33observe(r *vk.Run, id string, ev string, e *h2env, m *c33model, accBefor
 }
 
 func c33evclass(ev string) string {
+	ev = strings.TrimPrefix(ev, "END:")
 	if i := strings.Index(ev, "@"); i > 0 {
 		return ev[:i]
 	}
 	return ev
 }
 
+// c33closekind names the way a stream ended from the event during which it disappeared.
+func c33closekind(ev string, s *c33stream) string {
+	c := c33evclass(ev)
+	switch {
+	case c == "RST":
+		return "reset"
+	case c == "RET":
+		return "handler-returned"
+	case c == "PANIC":
+		return "handler-panic"
+	case c == "TO":
+		return "timeout"
+	case strings.HasPrefix(c, "D") && s.overLen > 0:
+		return "over-declared-length"
+	case strings.HasPrefix(c, "D"):
+		return "data-refused"
+	}
+	return "other"
+}
+
 // c33invariants checks the ledger at a quiescent point.
-func c33invariants(r *vk.Run, id string, hist []string, e *h2env, m *c33model) {
+func c33invariants(r *vk.Run, id string, ev string, hist []string, e *h2env, m *c33model) {
 	if m.connDead {
 		return
 	}
@@ -246,6 +324,7 @@ func c33invariants(r *vk.Run, id string, hist []string, e *h2env, m *c33model) {
 		r.Violation("over-credit:conn", id, fmt.Sprintf("connection WINDOW_UPDATE total %d exceeds octets received %d after %v", m.wu0, m.totalFC, hist))
 	}
 	debt := 0
+	var newlyGone []*c33stream
 	for _, s := range m.streams {
 		if !s.opened {
 			continue
@@ -264,64 +343,105 @@ func c33invariants(r *vk.Run, id string, hist []string, e *h2env, m *c33model) {
 				}
 				r.Violation("stream-window-not-replenished:"+cls, id, fmt.Sprintf("stream %d: received %d flow-controlled octets, credited back %d, but only %d octets are still buffered (handler read %d) after %v", s.id, s.sentFC, s.wu, unread, s.read, hist))
 			}
+		} else if !s.gone {
+			s.gone = true
+			s.closeKind = c33closekind(ev, s)
+			newlyGone = append(newlyGone, s)
 		}
 	}
-	// (3) connection-level debt == octets still buffered for live streams
-	if m.totalFC-m.wu0 != debt {
-		cls := c33leakclass(e, m)
-		r.Violation("conn-window-leak:"+cls, id, fmt.Sprintf("connection: received %d flow-controlled octets, credited back %d, outstanding %d but only %d octets are buffered for live streams after %v (a conforming client eventually stalls)", m.totalFC, m.wu0, m.totalFC-m.wu0, debt, hist))
+	// (3) connection-level debt == octets still buffered for live streams. A discrepancy is
+	// reported once, at the event where it appears (and then carried in ackLeak), so that its
+	// signature names the stream end that caused it.
+	outstanding := m.totalFC - m.wu0 - m.ackLeak
+	if diff := outstanding - debt; diff != 0 {
+		cls := c33leakclass(ev, m, newlyGone, diff)
+		if diff > 0 {
+			r.Violation("conn-window-leak:"+cls, id, fmt.Sprintf("connection: received %d flow-controlled octets, credited back %d (+%d reported lost earlier), outstanding %d but only %d octets are buffered for live streams after %v: %d octets of connection window are never returned (a conforming client eventually stalls)", m.totalFC, m.wu0, m.ackLeak, outstanding, debt, hist, diff))
+		} else {
+			r.Violation("conn-window-over-refund:"+cls, id, fmt.Sprintf("connection: received %d flow-controlled octets, credited back %d (+%d reported lost earlier), outstanding %d but %d octets are still buffered for live streams after %v: %d octets were credited that were not consumed", m.totalFC, m.wu0, m.ackLeak, outstanding, debt, hist, -diff))
+		}
+		m.ackLeak += diff
 	}
 }
 
 // c33leakclass names the situation in which connection window went missing (for signatures).
-func c33leakclass(e *h2env, m *c33model) string {
-	var cls []string
-	for _, s := range m.streams {
-		if !s.opened {
-			continue
-		}
-		_, alive := e.sc.streams[s.id]
-		if alive {
-			continue
-		}
-		if s.accepted-s.read > 0 {
-			switch {
-			case s.bodyClosed:
-				cls = append(cls, "closed-stream-unread(body-closed)")
-			case s.returned:
-				cls = append(cls, "closed-stream-unread(handler-returned)")
-			default:
-				cls = append(cls, "closed-stream-unread(reset)")
+func c33leakclass(ev string, m *c33model, newlyGone []*c33stream, diff int) string {
+	if len(newlyGone) == 0 {
+		for _, s := range m.streams {
+			if s.gone && strings.HasSuffix(ev, fmt.Sprintf("@%d", s.id)) {
+				return "closed-stream-late-event(" + c33evclass(ev) + ")"
 			}
-		} else {
-			cls = append(cls, "closed-stream-rejected-data")
 		}
-	}
-	if len(cls) == 0 {
 		return "live-streams"
 	}
-	return cls[0]
+	s := newlyGone[0]
+	unread := s.accepted - s.read
+	switch {
+	case s.closeKind == "over-declared-length" && diff == s.overLen:
+		// exactly the octets of the DATA frame that exceeded the declared length are missing
+		return "over-declared-data-frame"
+	case unread > 0 && s.bodyClosed:
+		return "closed-stream-unread(body-closed)"
+	case unread > 0:
+		return "closed-stream-unread(" + s.closeKind + ")"
+	}
+	return "closed-stream-rejected-data"
 }
 
-func c33exec(t *testing.T, r *vk.Run, fam string, depth int, ch *vk.Chooser, nth int64) {
-	conf := &Server{MaxUploadBufferPerStream: c33win}
-	if fam == "conn" {
-		conf = &Server{MaxUploadBufferPerStream: 1 << 20}
+// c33poll collects results of handler commands that were blocked and completed meanwhile.
+func c33poll(e *h2env, m *c33model) {
+	for _, s := range m.streams {
+		if h := e.handler(s.path); h != nil && h.busy {
+			if res, blocked := h.poll(); !blocked {
+				s.read += res.n
+			}
+		}
 	}
+}
+
+func c33exec(t *testing.T, r *vk.Run, f *c33fam, ch *vk.Chooser, nth int64) {
+	conf := &Server{MaxUploadBufferPerStream: f.win}
 	h2run(t, conf, false, func(e *h2env) {
-		e.recv()
-		m := &c33model{streams: []*c33stream{{id: 1, path: "/s1"}, {id: 3, path: "/s3"}}}
-		var hist []string
-		for d := 0; d < depth; d++ {
-			// collect results of handler commands that were blocked and completed meanwhile
-			for _, s := range m.streams {
-				if h := e.handler(s.path); h != nil && h.busy {
-					if res, blocked := h.poll(); !blocked {
-						s.read += res.n
+		if f.alpha.timer || f.alpha.panics {
+			e.mu.Lock()
+			e.autoHandler = func(h *h2handler) {
+				if rb, ok := h.req.Body.(*RequestBody); ok && f.alpha.timer {
+					SetReadStreamTimeout(rb, c33timeout) // what bfe_server's reverse proxy does at request start
+				}
+				h.req.Body = &c33body{h.req.Body}
+			}
+			e.mu.Unlock()
+		}
+		m := &c33model{win: c33connInit}
+		for _, fr := range e.recv() {
+			if fr.Type == FrameSettings && !fr.Ack {
+				for _, s := range fr.Settings {
+					if s.ID == SettingInitialWindowSize {
+						m.win = int(s.Val)
 					}
 				}
 			}
-			evs := c33events(fam, e, m, depth-d)
+		}
+		for i := 0; i < f.alpha.maxStreams; i++ {
+			m.streams = append(m.streams, &c33stream{id: uint32(2*i + 1), path: fmt.Sprintf("/s%d", 2*i+1), declared: -1})
+		}
+		var hist []string
+		id := ""
+		step := func(ev c33event) {
+			hist = append(hist, ev.name)
+			acc := map[uint32]int{}
+			for _, s := range m.streams {
+				acc[s.id] = s.accepted
+			}
+			ev.run(e, m)
+			c33poll(e, m)
+			c33observe(r, id, ev.name, e, m, acc)
+			c33invariants(r, id, ev.name, hist, e, m)
+			r.Transitions(1)
+		}
+		for d := 0; d < f.depth; d++ {
+			c33poll(e, m)
+			evs := c33events(&f.alpha, e, m)
 			if len(evs) == 0 {
 				break
 			}
@@ -329,48 +449,98 @@ func c33exec(t *testing.T, r *vk.Run, fam string, depth int, ch *vk.Chooser, nth
 			if ch.Skipped {
 				return
 			}
-			ev := evs[i]
-			hist = append(hist, ev.name)
-			acc := map[uint32]int{}
-			for _, s := range m.streams {
-				acc[s.id] = s.accepted
-			}
-			ev.run(e, m)
-			for _, s := range m.streams {
-				if h := e.handler(s.path); h != nil && h.busy {
-					if res, blocked := h.poll(); !blocked {
-						s.read += res.n
-					}
-				}
-			}
-			id := fam + "|trace:" + ch.TraceString()
-			c33observe(r, id, ev.name, e, m, acc)
-			c33invariants(r, id, hist, e, m)
-			r.Transitions(1)
+			id = f.name + "|trace:" + ch.TraceString()
+			step(evs[i])
 		}
-		r.Outcome(fmt.Sprintf("%s:dead=%v:wu0=%d", fam, m.connDead, m.wu0))
-		r.Case(ch.CaseID(fam))
-		r.Nontrivial(strings.Join(hist, " "))
+		id = ch.CaseID(f.name)
+		// Epilogue (no choices): the client cancels every request that is still open, every
+		// handler returns; then nothing is outstanding and the ledger must be back at its
+		// initial value.
+		for _, s := range m.streams {
+			s := s
+			if s.opened && !s.dead && !m.connDead {
+				step(c33event{fmt.Sprintf("END:RST@%d", s.id), func(e *h2env, m *c33model) { c33reset(e, s) }})
+			}
+		}
+		for _, s := range m.streams {
+			s := s
+			c33poll(e, m)
+			if h := e.handler(s.path); h != nil && !h.done && !h.busy && !m.connDead {
+				step(c33event{fmt.Sprintf("END:RET@%d", s.id), func(e *h2env, m *c33model) { c33return(h, s) }})
+			}
+		}
+		tracked := 0 // streams the server still tracks (e.g. the handler is gone after a panic)
+		for _, s := range m.streams {
+			if _, alive := e.sc.streams[s.id]; s.opened && alive {
+				tracked++
+			}
+		}
+		if !m.connDead && tracked == 0 {
+			if back := c33connInit + m.wu0 - m.totalFC; back+m.ackLeak != c33connInit {
+				// (unreachable unless c33invariants is wrong: it already compares at this point)
+				r.Violation("conn-window-not-restored-at-end", id, fmt.Sprintf("no stream is left but the client's connection window is %d, initial %d, after %v", back, c33connInit, hist))
+			}
+		}
+		var kinds []string
+		for _, s := range m.streams {
+			if s.gone {
+				kinds = append(kinds, s.closeKind)
+			}
+		}
+		sort.Strings(kinds)
+		r.Outcome(fmt.Sprintf("%s:dead=%v:ends=%s:lost=%v", f.name, m.connDead, strings.Join(kinds, "+"), m.ackLeak != 0))
+		r.Case(id)
+		r.Nontrivial(f.name + " " + strings.Join(hist, " "))
 		if nth%5000 == 17 {
-			r.Sample(map[string]interface{}{"family": fam, "events": strings.Join(hist, " "), "server_frames": h2trace(e.frames)})
+			r.Sample(map[string]interface{}{"family": f.name, "events": strings.Join(hist, " "), "server_frames": h2trace(e.frames)})
 		}
 	})
+}
+
+func c33families(r *vk.Run) []c33fam {
+	one := c33alpha{maxStreams: 1, closeBody: true, reads: []int{4, 64},
+		data: []c33dv{{"D1", 1, 0, false}, {"D5p2", 5, 2, false}, {"D8", 8, 0, false}, {"D9", 9, 0, false}, {"D2E", 2, 0, true}, {"D0p3", 0, 3, false}}}
+	two := c33alpha{maxStreams: 2, closeBody: true, reads: []int{64},
+		data: []c33dv{{"D3", 3, 0, false}, {"D8", 8, 0, false}, {"D2E", 2, 0, true}}}
+	conn := c33alpha{maxStreams: 1, closeBody: true, reads: []int{70000},
+		data: []c33dv{{"D16k", 16384, 0, false}, {"D16kp", 16000, 255, false}}}
+	// streams ending with unread buffered body octets, in sequential rounds
+	cls := c33alpha{maxStreams: 2, sequential: true, declLen: 2, timer: true, panics: true, reads: []int{1},
+		data: []c33dv{{"D1", 1, 0, false}, {"D3", 3, 0, false}}}
+	if r.Thorough() {
+		cls.maxStreams = 3
+		cls.closeBody = true
+		cls.reads = []int{1, 64}
+		cls.data = append(cls.data, c33dv{"D2p1", 2, 1, false}, c33dv{"D1E", 1, 0, true})
+	}
+	fams := []c33fam{
+		{"one", one, c33win, r.Pick(5, 7)},
+		{"two", two, c33win, r.Pick(5, 6)},
+		{"conn", conn, 1 << 20, r.Pick(6, 8)},
+		// default stream window: pooled request-body buffer
+		{"connp", conn, 0, r.Pick(6, 7)},
+		{"close.pool", cls, 0, r.Pick(5, 6)},
+		{"close.w8", cls, c33win, r.Pick(5, 6)},
+	}
+	if r.Thorough() {
+		fams = append(fams,
+			c33fam{"close.pool65535", cls, 65535, 5}, // explicit value equal to the default: pooled as well
+			c33fam{"close.w65536", cls, 65536, 5},
+			c33fam{"twop", two, 0, 5})
+	}
+	return fams
 }
 
 func TestVerifC33(t *testing.T) {
 	r := vk.Start(t, "C33")
 	defer r.Finish()
-	type fam struct {
-		name  string
-		depth int
-	}
-	fams := []fam{{"one", r.Pick(5, 7)}, {"two", r.Pick(5, 6)}, {"conn", r.Pick(6, 8)}}
-	for _, f := range fams {
+	for _, f := range c33families(r) {
+		f := f
 		complete := true
 		var nth int64
 		n := vk.ExploreSharded(r, f.name, 2, -1, func(ch *vk.Chooser) {
 			nth++
-			c33exec(t, r, f.name, f.depth, ch, nth)
+			c33exec(t, r, &f, ch, nth)
 		}, func() bool {
 			if r.Expired("c33 " + f.name) {
 				complete = false
@@ -380,6 +550,10 @@ func TestVerifC33(t *testing.T) {
 		})
 		r.Traces(n)
 		r.States(n)
-		r.Set("family_"+f.name, fmt.Sprintf("depth %d, complete=%v", f.depth, complete))
+		win := "default(pooled buffer)"
+		if f.win != 0 {
+			win = fmt.Sprint(f.win)
+		}
+		r.Set("family_"+strings.ReplaceAll(f.name, ".", "_"), fmt.Sprintf("stream window %s, depth %d, complete=%v", win, f.depth, complete))
 	}
 }
